@@ -117,11 +117,19 @@ Proof.
     | break_match ].
 Qed.
 
+Lemma fs_call_comm name args : commutes (fs_call name args).
+Proof.
+  intros v fu ex r l p st.
+  unfold fs_call, set_fs, new_list, alloc.
+  cbn [heap out stdin_ orc FR set_heap set_out set_stdin set_orc].
+  repeat first [ reflexivity | rewrite show_v_FR | break_match ].
+Qed.
+
 Lemma native_call_comm m name sig args spans : commutes (native_call m name sig args spans).
 Proof.
   unfold native_call. apply commutes_bind.
   - apply check_args_comm.
-  - intros _. apply native_body_comm.
+  - intros _. destruct (str_eq m "FS"); [apply fs_call_comm | apply native_body_comm].
 Qed.
 
 Lemma apply_binop_comm op tok a b : commutes (apply_binop op tok a b).
